@@ -1,21 +1,32 @@
-import FstVerif.Model.Reader
+import FstVerif.Proofs.Lookup
 /-
-C02 — point lookups. (`C02_get`, `C02_contains` for every probe are assembled
-from Proofs/Lookup.lean; here: the end-of-key step and absent-byte step, for any node access.)
+C02 — point lookups, for every probe. Statements here, proofs in
+Proofs/Lookup.lean. The theorems are about any node access that represents a
+good store; Proofs/Build.lean shows that builder output is a good store whose
+root spells the inserted map and Proofs/Codec.lean that the byte reader
+represents it (assembled in C01.lean when those are present).
 -/
-namespace Fst
-variable {N : Type}
+namespace Fst.Props
+open Fst
+variable {N : Type} {s : Store} {den : Nat → KV} {acc : NodeAccess N}
 
-/-- at the end of the probe, the answer is decided by finality alone: a proper
-prefix of a key (non-final node) is never reported -/
-theorem C02_end_of_key (acc : NodeAccess N) (n : N) (out : Nat) :
-    getGo acc n out [] = some (if acc.isFinal n then some (out + acc.finalOutput n) else none) := rfl
+/-- `get` returns the stored value exactly for stored keys and `None` for every other
+probe (prefixes, extensions, substitutions, the empty key …) and never panics -/
+theorem C02_get (hg : GoodStore s den) (hr : Represents acc s) (root : Nat)
+    (hroot : root = 0 ∨ ∃ n, (root, n) ∈ s) (key : Key) :
+    fstGet acc root key = some (lookupKV (den root) key) := fstGet_correct hg hr root hroot key
 
-/-- a probe that leaves the automaton (no transition for the next byte) is absent -/
-theorem C02_no_transition (acc : NodeAccess N) (n : N) (out : Nat) (b : UInt8) (bs : Key)
-    (h : acc.findInput n b = some none) : getGo acc n out (b :: bs) = some none := by
-  simp [getGo, h]
+/-- `contains_key` is true exactly for stored keys -/
+theorem C02_contains (hg : GoodStore s den) (hr : Represents acc s) (root : Nat)
+    (hroot : root = 0 ∨ ∃ n, (root, n) ∈ s) (key : Key) :
+    fstContains acc root key = some ((den root).any fun kv => kv.1 == key) :=
+  fstContains_correct hg hr root hroot key
 
-theorem C02_contains_end (acc : NodeAccess N) (n : N) : containsGo acc n [] = some (acc.isFinal n) := rfl
+/-- the denotation is strictly sorted, so `lookupKV` has at most one candidate per key -/
+theorem C02_den_sorted (hg : GoodStore s den) (a : Nat) (h : a = 0 ∨ ∃ n, (a, n) ∈ s) :
+    SortedKV (den a) := den_sorted hg a h
 
-end Fst
+/-- non-vacuity: a concrete three-node store satisfies the hypotheses -/
+example : GoodStore LookupExample.exStore LookupExample.exDen := LookupExample.exGood
+
+end Fst.Props
